@@ -29,11 +29,11 @@ checks = {
 }
 
 checks.update({
- "C02": dict(level="model_checking", engine="ENUM", ref="DESIGN.md §5 C02",
+ "C02": dict(level="exploration", engine="ENUM", ref="DESIGN.md §5 C02",
    technique="exhaustive enumeration of the full product of attempt dimensions at several history positions on the real provider, reference predicate + store-dump equality",
    text="Every combination of owner client (confidential/public, with/without redirect_uri sent) x flow x history position x token strategy x presenter x redirect_uri form x smuggled parameter x code age is executed as authorize -> attempt -> legitimate redemption -> introspection on a fresh provider. Issuance only for owner + string-equal redirect_uri + unexpired; refusals must be invalid_grant for foreign client / different redirect_uri, leave the store dump unchanged and the code redeemable; issued tokens carry exactly the grant.",
    note="Alphabets are those listed in evidence.bounds; code ages are 5 s away from the expiry instant (expiry rounding is C07)."),
- "C05": dict(level="model_checking", engine="ENUM", ref="DESIGN.md §5 C05",
+ "C05": dict(level="exploration", engine="ENUM", ref="DESIGN.md §5 C05",
    technique="exhaustive enumeration of the full product of grant / request / registration-change / configuration dimensions on the real provider against independent reference strategies",
    text="Every combination of grant origin x granted scopes x audience x refresh-request parameters x presenter x post-issuance registration change (in place or by replacing the record) x refresh-scope configuration x scope strategy x client refresh grant x prior chain length x partial consent is executed on a fresh provider; refresh honoured only for the owner still covering every granted scope/audience and holding the grant; new tokens' sub/scope/aud equal the original grant; refresh tokens only issued under the stated conditions.",
    note="Scope coverage judged by refstrat.go (independent implementation of the documented strategies)."),
